@@ -14,10 +14,10 @@ func init() {
 	register(&Prop{
 		ID: "C16",
 		Explanation: "Sum-tree. Query side: which components of the three-way split (left, exact, right) each range-sum API adds, Increase/Decrease as read-modify-write on the same key with the same (negated) amount, the leaf case mapping key comparison -1/0/+1 to left/exact/right, nil (open) bounds never used as real keys, and the interior case descending into child idx only when it exists. " +
-			"Node side: the node value stored by set() is the one whose accumulate() the parent is told (push, pull, merge, updateAccumulation); an emptied node leaves its parent under its own key and is deleted only when the left sibling inheriting its range has the same parent; merges only under one parent and within the fan-out; the 8-bit split position cannot wrap; split/merge bounds; unknown children fail loudly.",
+			"Node side: the node value stored by set() is the one whose accumulate() the parent is told (push, pull, merge, updateAccumulation); an emptied node leaves its parent under its own key and is deleted only when the left sibling inheriting its range has the same parent; merges only under one parent and within the fan-out; the 8-bit split position cannot wrap; split/merge bounds; unknown children fail loudly. Round 8: the legacy JSON→protobuf store migration re-encodes every node (branch recursion one level down into every child, leaves at level 0).",
 		NotCovered:  []string{"equivalence with a sorted map over operation sequences as such (necessary conditions only)", "iteration order", "all fan-out settings as values"},
 		Assumptions: []string{"KV store iterators return keys in byte order (parent()/leftSibling()/rightSibling() rely on it)"},
-		MinObl:      56,
+		MinObl:      65,
 		Run:         runC16,
 	})
 }
